@@ -1090,7 +1090,19 @@ func (i *interpreter) doSelect(instr *ssa.Select, fr *frame) value {
 		if !instr.Blocking {
 			return mk(-1, false, nil)
 		}
+		// register as a waiting receiver on every receive case so that a
+		// sender blocked in its own select can rendezvous with us
+		for _, s := range states {
+			if s.recv && s.c != nil {
+				s.c.recvWaiting++
+			}
+		}
 		i.yield(true)
+		for _, s := range states {
+			if s.recv && s.c != nil {
+				s.c.recvWaiting--
+			}
+		}
 	}
 }
 
